@@ -84,9 +84,9 @@ type PEmb struct {
 }
 type M1 struct{ V string }
 
-func (m M1) Val() string    { return "M1.Val:" + m.V }
-func (m *M1) PVal() string  { return "M1.PVal:" + m.V }
-func (m M1) Num() int       { return 4201 }
+func (m M1) Val() string          { return "M1.Val:" + m.V }
+func (m *M1) PVal() string        { return "M1.PVal:" + m.V }
+func (m M1) Num() int             { return 4201 }
 func (m M1) WithArg(a int) string { return "never" }
 
 type M2 struct {
